@@ -149,8 +149,26 @@ def closure_for(api, wl):
 @st.composite
 def cases(draw):
     api = draw(gen.api_models(gen.Cfg(**C20_CFG)))
+    twins = []
+    if len(api['namespaces']) >= 2 and draw(st.integers(0, 2)) == 0:
+        # the same names and the same doc text in two namespaces: each reference resolves in its own namespace
+        for n in draw(st.permutations(api['namespaces']))[:2]:
+            canon = {M.canon(d.get('name', '')) for d in n['defs']} | {M.canon(n['name'])}
+            if canon & {'zztwin', 'zzholder', 'zztwinroute'}:
+                continue
+            n['defs'].append({'k': 'struct', 'name': 'ZzTwin', 'parent': None, 'doc': None, 'subtypes': None, 'examples': [],
+                              'patch': 0, 'fields': [{'name': 'x', 'type': M.prim('Int32'), 'doc': None, 'default': None,
+                                                      'annots': []}]})
+            n['defs'].append({'k': 'struct', 'name': 'ZzHolder', 'parent': None, 'doc': None, 'subtypes': None, 'examples': [],
+                              'patch': 0, 'fields': [{'name': 'note', 'type': M.prim('String'), 'default': None, 'annots': [],
+                                                      'doc': 'see :type:`ZzTwin` and :route:`zz_twin_route` here'}]})
+            n['defs'].append({'k': 'route', 'name': 'zz_twin_route', 'version': 1, 'arg': ('ref', n['name'], 'ZzHolder'),
+                              'result': M.VOID, 'error': M.VOID, 'doc': None, 'deprecated': None, 'attrs': {}})
+            twins.append(n['name'])
     idx = M.Index(api)
     wls = []
+    if len(twins) == 2:
+        wls.append({'route_whitelist': {}, 'datatype_whitelist': {t: ['ZzHolder'] for t in twins}})
     for _ in range(draw(st.integers(2, 5))):
         rw, dw = {}, {}
         for n in api['namespaces']:
@@ -166,7 +184,9 @@ def cases(draw):
             if types and draw(st.integers(0, 3)) == 0:
                 dw[n['name']] = [x['name'] for x in types if draw(st.integers(0, 2)) == 0]
         wls.append({'route_whitelist': rw, 'datatype_whitelist': dw})
-    return {'api': api, 'whitelists': wls}
+    # the order in which the spec files are handed to the compiler (the filtered API must not depend on it)
+    order = draw(st.permutations(list(range(len(api['namespaces']) + (1 if api.get('schema') else 0)))))
+    return {'api': api, 'whitelists': wls, 'order': list(order)}
 
 
 def user_refs_of_ir(dt, out, depth=0):
@@ -188,6 +208,9 @@ def run(case, rec):
     api = case['api']
     idx = M.Index(api)
     specs, _ = render.render(api)
+    order = case.get('order')
+    if order and len(order) == len(specs):
+        specs = [specs[i] for i in order]
     kind, full = front.compile_specs(specs)
     if kind != 'api':
         rec.note('not_accepted(judged by C01/C03)')
